@@ -45,6 +45,9 @@ int creds_issue(const CertSpec *spec, const SM2_KEY *subject_key, const Ident *i
 		if (x509_exts_add_subject_alt_name(exts, &extslen, sizeof(exts), X509_non_critical, gns, gnslen) != 1) return -1;
 	}
 	if (spec->eku) {
+		/* the "rich" leaves also carry inhibitAnyPolicy, so that every extension printer of the library gets its turn
+		 * when a verifier dumps a certificate it rejects */
+		if (x509_exts_add_inhibit_any_policy(exts, &extslen, sizeof(exts), X509_non_critical, 2) != 1) return -1;
 		int kp[1] = { spec->eku == 1 ? OID_kp_server_auth : OID_kp_client_auth };
 		if (x509_exts_add_ext_key_usage(exts, &extslen, sizeof(exts), X509_non_critical, kp, 1) != 1) return -1;
 	}
